@@ -47,6 +47,9 @@ def gen_T19():
     tk = find_def(t, 'takeMsg', 'Irc')
     chain = [n for n in tk.body if isinstance(n, ast.If) and ast.unparse(n.test) == 'self.fastqueue']
     need(len(chain) == 1, 'Irc.takeMsg: expected one  if self.fastqueue:  at top level')
+    # once a message is out of its queue nothing in takeMsg may fail on a contract check: the firewall would swallow the AssertionError
+    # and the message would be lost (finding C19.F47)
+    need(not any(isinstance(n, ast.Assert) for n in ast.walk(tk)), 'Irc.takeMsg contains an assert statement: a failing assert loses the message in flight')
     c0 = chain[0]
     need([ast.unparse(x) for x in c0.body] == ['msg = self.fastqueue.dequeue()'], 'Irc.takeMsg: fastqueue branch changed')
     need(len(c0.orelse) == 1 and isinstance(c0.orelse[0], ast.If) and ast.unparse(c0.orelse[0].test) == 'self.queue',
